@@ -23,3 +23,7 @@ def check(ctx: Ctx) -> None:
     CT.r_wire_codec(ctx, "R17.14")
     CT.r_dispatch_names(ctx, "R17.15")
     CT.r_dispatch_kind(ctx, "R17.16")
+    # "sending a well-formed command has the effect of calling the method": it is called when the command arrives - not held back behind
+    # a synchronisation object another session keeps while its own command (until-closed, flush, gather-and-close) waits
+    from .c19 import r_no_shared_lock
+    r_no_shared_lock(ctx, "R17.17")
